@@ -235,6 +235,7 @@ def run(ctx):
     )
     callforms.run_solver_forms(ctx)
     errorpaths.run(ctx, case_levels, [c for c in cases(ctx.tier) if len(c['levels']) == 3 and c['prec'] == 'double' and 'cell' not in c and 'zscale' not in c][:4])
+    errorpaths.run_threaded(ctx, case_levels, [c for c in cases(ctx.tier) if len(c['levels']) == 3 and c['prec'] == 'double' and not c['analytic'] and 'cell' not in c and 'zscale' not in c][:2], threads=(3,))
     ctx.run_cases(errorpaths.case_blocked_pyfftw, [{"blocked": "pyfftw"}], sub="pyfftw cannot be imported: refuse or be right", chunksize=1)
     res = ctx.run_cases(case_levels, cases(ctx.tier), sub="levels")
     ctx.run_cases(case_cached, cache_cases(ctx.tier), sub="levels-through-cache")
